@@ -634,6 +634,72 @@ class SampleBinding(_NoReplay):
         yield "batch_rule_rejects_plain_vmap", rejected
         yield "keyless_impl_is_KeylessWrapper", isinstance(b["f"], pjax.KeylessWrapper)
 
+@contract("genjax.pjax:ModularVmap.eval_jaxpr_modular_vmap", ["C08", "C07"])
+class MVInterpNested(_NoReplay):
+    """nested control flow: a sampling site that is only reachable THROUGH an inner cond (no site directly in the
+    enclosing scan body / outer branch) still receives the batched dummy and the modular-vmap context - control flow
+    is re-interpreted whatever it contains, never bound as it is while a site is reachable below it"""
+
+    cases = ["scan>cond>site", "cond>cond>site"]
+
+    def call(self, case):
+        self.axis = Sym(fresh("axis_size", z3.IntSort()))
+        self.dummy = Tensor.fresh("dummy", (self.axis.e,), z3.IntSort())
+        self.sA, self.sB = S.Site(), S.Site()
+
+        def branch(site):
+            u, o = J.Var("u"), J.Var("o")
+            return J.ClosedJaxpr(J.Jaxpr([], [u], [J.Eqn(site.prim, [u], [o])], [o]), [])
+
+        inner = {"branches": (branch(self.sA), branch(self.sB))}
+        self.vi = Sym(fresh("idx", z3.IntSort()))
+        if case == "scan>cond>site":
+            cst, car, xv, d = J.Var("cst"), J.Var("car"), J.Var("xv"), J.Var("d")
+            body = J.ClosedJaxpr(J.Jaxpr([], [cst, car, xv], [J.Eqn(J.cond_p, [cst, xv], [d], inner)], [car, d]), [])
+            self.T = fresh("T", z3.IntSort())
+            engine().assume(self.T >= 0)
+            k, c0, xs, fc, ys = (J.Var(n) for n in ("k", "c0", "xs", "fc", "ys"))
+            self.vc0 = value("carry0")
+            self.vxs = Tensor.fresh("xs", (self.T,), V)
+            params = {"jaxpr": body, "length": Sym(self.T), "reverse": False, "unroll": 1, "num_consts": 1, "num_carry": 1, "linear": None}
+            jp = J.Jaxpr([], [k, c0, xs], [J.Eqn(J.scan_p, [k, c0, xs], [fc, ys], params)], [fc, ys])
+            return self.real(pjax.ModularVmap.eval_jaxpr_modular_vmap, self.axis, jp, [], [self.vi, self.vc0, self.vxs], self.dummy)
+        j2, u2, o2 = J.Var("j2"), J.Var("u2"), J.Var("o2")
+        outer_branch = J.ClosedJaxpr(J.Jaxpr([], [j2, u2], [J.Eqn(J.cond_p, [j2, u2], [o2], inner)], [o2]), [])
+        i, j, x, o = J.Var("i"), J.Var("j"), J.Var("x"), J.Var("o")
+        self.vj, self.vx = Sym(fresh("idx_outer", z3.IntSort())), value("x")
+        jp = J.Jaxpr([], [j, i, x], [J.Eqn(J.cond_p, [j, i, x], [o], {"branches": (outer_branch, outer_branch)})], [o])
+        return self.real(pjax.ModularVmap.eval_jaxpr_modular_vmap, self.axis, jp, [], [self.vj, self.vi, self.vx], self.dummy)
+
+    def ensures(self, case, path):
+        yield "does_not_raise", path.outcome == "return"
+        if path.outcome != "return":
+            return
+        n_expected = 1 if case.startswith("scan") else 2  # the outer cond has two (identical) branches
+        for nm, s in (("first", self.sA), ("second", self.sB)):
+            b = s.binds
+            yield f"{nm}_inner_branch_site_is_rebound(not left to a plain bind of the enclosing control flow)", len(b) == n_expected and not s.calls
+            if len(b) != n_expected:
+                continue
+            args, params = b[0]
+            yield f"{nm}_inner_site_gets_context_and_axis_size", params.get("ctx") == "modular_vmap" and params.get("axis_size") is self.axis
+            if case.startswith("scan"):
+                scans = path.extra.get("scans", [])
+                if len(scans) != 1:
+                    yield "one_scan_with_the_original_length", False
+                    continue
+                rec = scans[0]
+                t = rec["t"]
+                ii = fresh("ii", z3.IntSort())
+                carry_t = rec["carry_at"](t)
+                a0 = args[0]
+                yield f"{nm}_inner_site_gets_the_dummy_threaded_through_the_carry", isinstance(a0, Tensor) and isinstance(carry_t[0], Tensor) and a0.fn((ii,)) == carry_t[0].fn((ii,)) and rec["init"][0] is self.dummy
+                yield f"{nm}_inner_site_operand_is_this_iterations_x", same(args[1], Sym(self.vxs.fn((t,))))
+            else:
+                yield f"{nm}_inner_site_gets_the_dummy_then_its_operand", args[0] is self.dummy and args[1] is self.vx
+
+
+
 from vt.contract import canary as _canary  # noqa: E402
 
 _canary(SampleRuleDataflow, "no_parameter_batched", "sample_shape_extended_by_lane_count")
